@@ -1235,6 +1235,15 @@ where
         Ok(())
     }
 
+    /// Overwrites blocks in original file, ensuring they reach it
+    fn overwrite_blocks<F: std::io::Write>(original: F, blocks: BlockList) -> Result<(), Error> {
+        use std::io::Write;
+
+        let mut w = BufWriter::new(original);
+        write_blocks(w.by_ref(), blocks)?;
+        w.flush().map_err(Error::Io)
+    }
+
     // the starting position in the stream we rewind to
     let start = std::io::SeekFrom::Start(original.stream_position().map_err(Error::Io)?);
 
@@ -1262,7 +1271,7 @@ where
             match grow_padding(&mut blocks, old_size - new_size) {
                 Ok(()) => {
                     original.seek(start).map_err(Error::Io)?;
-                    write_blocks(BufWriter::new(original), blocks)
+                    overwrite_blocks(original, blocks)
                         .map(|()| false)
                         .map_err(E::from)
                 }
@@ -1274,7 +1283,7 @@ where
         Ordering::Equal => {
             // blocks are the same size, so no need to adjust padding
             original.seek(start).map_err(Error::Io)?;
-            write_blocks(BufWriter::new(original), blocks)
+            overwrite_blocks(original, blocks)
                 .map(|()| false)
                 .map_err(E::from)
         }
@@ -1284,7 +1293,7 @@ where
             match shrink_padding(&mut blocks, new_size - old_size) {
                 Ok(()) => {
                     original.seek(start).map_err(Error::Io)?;
-                    write_blocks(BufWriter::new(original), blocks)
+                    overwrite_blocks(original, blocks)
                         .map(|()| false)
                         .map_err(E::from)
                 }
